@@ -117,7 +117,7 @@ class C11(Check):
     technique = ('exhaustive enumeration of molecule sequences x all loading-order permutations x loading mode on the '
                  'real System; oracle = the generator\'s own instance list with Python list semantics for len / index / '
                  'slice / iteration')
-    level_text = ('every sequence of up to 4 (quick) / 6 (thorough) molecules over 4 species + unloaded solvent, 3 '
+    level_text = ('every sequence of up to 4 (quick) / 6 (thorough) molecules over 4 species + unloaded solvent, 4 '
                   'residue-numbering classes, every loading-order permutation, both loading modes (with the oracle '
                   'after every add_ftop, i.e. every ordered subset of species), every index in [-n-1, n], the slice '
                   'cube {None,-2,-1,0,1,2,n}^3, and every topology without a matching run are executed on the real '
@@ -125,9 +125,10 @@ class C11(Check):
     level_note = ('trusted: mcx.build text builders, the .gro/.itp parsers (C12, C15 check them). Not covered: species '
                   'sharing a residue kind (outcome legitimately depends on load order), adjacent molecules of one '
                   'species carrying the SAME residue number (the coordinate file then shows one residue; the statement '
-                  'does not promise recognition), two residues of equal (name, size) but different atom names. For '
-                  'sequences longer than 4 the slice cube is evaluated for one loading order (constructor mode); '
-                  'len / composition / iteration / every index are evaluated on every case.')
+                  'does not promise recognition), two residues of equal (name, size) but different atom names. Beyond '
+                  'the all-orders length the slice cube is evaluated for one loading order (constructor mode), at '
+                  'length 6 with step in {None,-1,2}; len / composition / iteration / every index are evaluated on '
+                  'every case.')
     assumptions = ['residue kinds pairwise disjoint between species ("distinct residue signatures")',
                    'adjacent residues differ in residue number or in residue name (classes: sequential, alternating '
                    '7/8, wrap ...99998,99999,0,1..., same number on adjacent residues of different names)',
@@ -139,14 +140,17 @@ class C11(Check):
         m = 128 if tier == 'thorough' else 48
         sl = 4 if tier == 'thorough' else 3      # slice cube on every (sequence, order, mode) up to this length
         nl = 4 if tier == 'thorough' else 3      # numbering classes alt, wrap, same up to this length
+        # (for the numbering classes other than seq the all-orders slice cube stops at length 3)
         self.bounds = {'sequence_len_max': lmax, 'species': 4, 'solvent': 'W (never loaded)',
                        'numberings': list(NUMBERINGS), 'loading_orders': 'all permutations',
                        'modes': ['ctor', 'add'], 'slice_values': '{None,-2,-1,0,1,2,n}^3, step != 0',
-                       'slice_cube_all_orders_up_to_len': sl,
-                       'slice_cube_one_order_beyond': True,
+                       'slice_cube_all_orders_up_to_len': {'seq': sl, 'alt/wrap/same': 3},
+                       'slice_cube_one_order_beyond': 'full cube up to length 5; at length 6 step in {None,-1,2}',
+                       'oracle_after_each_add_ftop': 'iteration, len, composition; final state: + every index, slices',
                        'numbering_alt_wrap_same_up_to_len': nl,
                        'refused_topologies': 'numbering seq only; absent species, absent kind sequence, '
-                                             'different atom names; before and after loading the real species'}
+                                             'different atom names; before and after loading the real species '
+                                             '(after only, for sequences longer than 4)'}
         return [{'lmax': lmax, 'mod': m, 'r': r, 'sl': sl, 'nl': nl} for r in range(m)]
 
     def cases(self, unit, tier, seed):
@@ -158,7 +162,7 @@ class C11(Check):
                         continue
                     i += 1
                     if i % unit['mod'] == unit['r']:
-                        yield {'seq': list(seq), 'num': num, 'sl': unit['sl']}
+                        yield {'seq': list(seq), 'num': num, 'sl': unit['sl'] if num == 'seq' else 3}
 
     # ------------------------------------------------------------------
     def check_case(self, case, R, seed):
@@ -172,8 +176,13 @@ class C11(Check):
         modes = [case['mode']] if 'mode' in case else ['ctor', 'add']
         for pi, perm in enumerate(perms):
             for mode in modes:
-                full = len(seq) <= case.get('sl', 4) or (pi == 0 and mode == 'ctor') or 'perm' in case
-                self._load(dict(case, perm=perm, mode=mode), R, text, inst, perm, mode, full)
+                if len(seq) <= case.get('sl', 4) or 'perm' in case:
+                    level = 3
+                elif pi == 0 and mode == 'ctor':
+                    level = 3 if len(seq) <= 5 else 2
+                else:
+                    level = 1
+                self._load(dict(case, perm=perm, mode=mode), R, text, inst, perm, mode, level)
         if 'perm' not in case and num == 'seq':
             for g in self._ghosts(seq, stream, present):
                 self._ghost(dict(case, ghost=g), R, text, inst, stream, present)
@@ -181,7 +190,7 @@ class C11(Check):
     # ------------------------------------------------------------------
     _oor_other = 0
 
-    def _load(self, cdesc, R, text, inst, perm, mode, full):
+    def _load(self, cdesc, R, text, inst, perm, mode, level):
         from gaddlemaps.components import System
         self._oor_other = 0
         seq = cdesc['seq']
@@ -191,16 +200,16 @@ class C11(Check):
         try:
             if mode == 'ctor':
                 syst = System(MemFile(text, 'c11.gro'), *tops)
-                sig, det = self._oracle(syst, inst, set(perm), full)
+                sig, det = self._oracle(syst, inst, set(perm), level)
             else:
                 syst = System(MemFile(text, 'c11.gro'))
-                sig, det = self._oracle(syst, inst, set(), False)
+                sig, det = self._oracle(syst, inst, set(), 1 if not tops else 0)
                 for k, t in enumerate(tops):
                     if sig:
                         break
                     syst.add_ftop(t)
                     last = k == len(tops) - 1
-                    sig, det = self._oracle(syst, inst, set(perm[:k + 1]), full and last)
+                    sig, det = self._oracle(syst, inst, set(perm[:k + 1]), level if last else 0)
                     if sig:
                         det = f'after loading {perm[:k + 1]}: {det}'
         except Exception as exc:     # a present species must load
@@ -214,8 +223,13 @@ class C11(Check):
         if sig:
             R.violation(sig, cdesc, det)
 
-    def _oracle(self, syst, inst, loaded, full):
-        """Compare the System with the ground truth restricted to the loaded species."""
+    def _oracle(self, syst, inst, loaded, level):
+        """Compare the System with the ground truth restricted to the loaded species.
+
+        level 0: iteration (complete per-atom fingerprint), len, composition; 1: + public Molecule
+        interface atom by atom, every index, out-of-range; 2: + slice cube with step in {None,-1,2};
+        3: + full slice cube.  The checks of a lower level come first, in the same order.
+        """
         want = [g for g in inst if g['sp'] in loaded]
         wfp = [fp_truth(g) for g in want]
         n = len(want)
@@ -227,6 +241,19 @@ class C11(Check):
             if sorted(got) == sorted(wfp):
                 return 'iter/not-in-file-order', [g[0] + str(g[1][0][0]) for g in got]
             return 'iter/molecule-differs-from-instance', self._first_diff(got, wfp)
+        ids = [i for g in got for i in [a[0] for a in g[1]]]
+        if len(set(ids)) != len(ids):
+            return 'iter/runs-overlap', ids
+        if len(syst) != n:
+            return 'len/disagrees-with-iteration', (len(syst), n)
+        comp = {}
+        for g in want:
+            comp[g['sp']] = comp.get(g['sp'], 0) + 1
+        have = {k: v for k, v in dict(syst.composition).items() if v}
+        if have != comp:
+            return 'composition/disagrees-with-instances', (have, comp)
+        if level < 1:
+            return None, None
         # atom by atom through the public Molecule interface
         for m, g in zip(mols, want):
             if len(m) != len(g['names']):
@@ -239,19 +266,6 @@ class C11(Check):
                 return 'iter/not-the-contiguous-run', (m.atoms_ids, g['ids'])
             if np.abs(m.atoms_positions - np.array(g['pos'])).max() > 1e-9:
                 return 'iter/coordinates-not-the-files', m.atoms_positions.tolist()
-        ids = [i for g in got for i in [a[0] for a in g[1]]]
-        if len(set(ids)) != len(ids):
-            return 'iter/runs-overlap', ids
-        if len(syst) != n:
-            return 'len/disagrees-with-iteration', (len(syst), n)
-        comp = {}
-        for g in want:
-            comp[g['sp']] = comp.get(g['sp'], 0) + 1
-        have = {k: v for k, v in dict(syst.composition).items() if v}
-        if have != comp:
-            return 'composition/disagrees-with-instances', (have, comp)
-        if got != [fp_mol(m) for m in syst]:
-            return 'iter/second-iteration-differs', ''
         for i in range(-n, n):
             try:
                 f = fp_mol(syst[i])
@@ -268,7 +282,7 @@ class C11(Check):
                 self._oor_other += 1
                 continue
             return 'index/out-of-range-accepted', f'[{i}] of {n}'
-        if full:
+        if level >= 2:
             vals = []
             for v in (None, -2, -1, 0, 1, 2, n):
                 if v not in vals:
@@ -276,7 +290,7 @@ class C11(Check):
             for a in vals:
                 for b in vals:
                     for c in vals:
-                        if c == 0:
+                        if c == 0 or (level == 2 and c not in (None, -1, 2)):
                             continue
                         try:
                             out = [fp_mol(m) for m in syst[a:b:c]]
@@ -310,7 +324,7 @@ class C11(Check):
             out.append({'kind': 'names', 'sp': s})
         res = []
         for g in out:
-            for where in ('first', 'last'):
+            for where in (('first', 'last') if len(seq) <= 4 else ('last',)):
                 res.append(dict(g, where=where))
         return res
 
@@ -330,12 +344,7 @@ class C11(Check):
         try:
             syst = System(MemFile(text, 'c11.gro'),
                           *[MemFile(top_text(s, SPECIES[s]), s + '.itp') for s in loaded])
-        except Exception as exc:
-            R.case(cdesc, nontrivial=False, outcome='load failed', cls=f"ghost/{g['kind']}/{g['where']}")
-            R.violation('load/exception', cdesc, f'{type(exc).__name__}: {exc}')
-            return
-        try:
-            pre = self._oracle(syst, inst, set(loaded), False)[0]
+            pre = self._oracle(syst, inst, set(loaded), 0)[0]
         except Exception as exc:
             pre = 'exception'
         if pre:      # the system is already wrong before the refusal: reported by the loading cases
@@ -349,7 +358,7 @@ class C11(Check):
         except Exception as exc:      # any exception type counts as "an error"
             outcome = 'refused:' + type(exc).__name__
             try:
-                s2, d2 = self._oracle(syst, inst, set(loaded), False)
+                s2, d2 = self._oracle(syst, inst, set(loaded), 0)
             except Exception as exc2:
                 s2, d2 = 'exception', f'{type(exc2).__name__}: {exc2}'
             if s2:
